@@ -140,6 +140,23 @@ class ConcreteCtx(_Base):
     def preimage(self, digest):
         return None
 
+    def sha256(self, b):
+        import hashlib
+        return hashlib.sha256(bytes(b)).digest()
+
+    def sha1(self, b):
+        import hashlib
+        return hashlib.sha1(bytes(b)).digest()
+
+    def dsha256(self, b):
+        return self.sha256(self.sha256(b))
+
+    def ripemd160(self, b):
+        return self.lib['bitcoin.core.contrib.ripemd160'].ripemd160(bytes(b))
+
+    def hash160(self, b):
+        return self.ripemd160(self.sha256(b))
+
     def V(self, pubkey, h, sig):
         key = self.lib['bitcoin.core.key'].CECKey()
         key.set_pubkey(bytes(pubkey))
@@ -277,6 +294,24 @@ def make_symctx_class():
         def preimage(self, digest):
             p = getattr(digest, 'preimage', None)
             return None if p is None else p[1]
+
+        def sha256(self, b):
+            from . import stubs
+            return stubs.hash_apply('sha256', vtypes.VBytes(b))
+
+        def sha1(self, b):
+            from . import stubs
+            return stubs.hash_apply('sha1', vtypes.VBytes(b))
+
+        def dsha256(self, b):
+            return self.sha256(self.sha256(b))
+
+        def ripemd160(self, b):
+            from . import stubs
+            return stubs.hash_apply('ripemd160', vtypes.VBytes(b))
+
+        def hash160(self, b):
+            return self.ripemd160(self.sha256(b))
 
         def V(self, pubkey, h, sig):
             return keystub.V(pubkey, h, sig)
